@@ -190,6 +190,17 @@ def make_offenders(toks, tree, loaded, rng):
     for g in rng.sample(r["surplus"], min(3, len(r["surplus"]))):
         out.append(("surplus-string", g, rng.choice([b'"zz"', b'"\xc3\xa9"', b'""'])))
         out.append(("surplus-number", g, rng.choice([b"1", b"10K", b"42"])))
+        # offending tokens of every length, one token each: long strings (quoted, multi-line,
+        # multi-byte), long numbers, long identifiers and tags
+        n = rng.choice([97, 98, 99, 100, 101, 102, 152, 255, 256, 602, 1024, 2002, 5000])
+        out.append(("surplus-string", g, rng.choice([
+            b'"' + b"z" * (n - 2) + b'"', b'"' + "\u00e9".encode() * ((n - 2) // 2) + b'"',
+            b"text:\n" + b"l" * (n - 8) + b"\n."])))
+        out.append(("surplus-number", g, b"1" * n))
+    for _ in range(2):
+        n = rng.choice([99, 100, 101, 256, 1000, 5000])
+        out.append(("unknown-command", rng.choice(r["any"]), b"f" * n))
+        out.append(("unknown-tag", rng.choice(r["any"]), b":" + b"t" * n))
     for g in rng.sample(r["cmd-start"], min(3, len(r["cmd-start"]))):
         out.append(("test-as-command", g, rng.choice([b"true", b"header", b"exists",
                                                       b"not", b"anyof", b"size", b"TRUE"])))
@@ -223,6 +234,9 @@ def check_offender(V, toks, cls, gap, x, res: Result, crlf):
     first = None
     for sfx in SUFFIXES:
         tail = (b" " + rest) if sfx is None else sfx
+        if x.startswith(b"text:"):
+            # the dot that ends a multi-line literal must be followed by a line break
+            tail = b"\n" + tail
         data = prefix + x + tail
         o = lab.parse(data)
         v = o.verdict()
